@@ -82,11 +82,19 @@ package scs
 //@   assigns *builder.cs, *builder.mtBooleans
 //@   ensures len(in) == 0 ==> denS(builder, result) == fadd(denS(builder, i1), denS(builder, i2))
 //@   ensures len(in) == 1 ==> denS(builder, result) == fadd(fadd(denS(builder, i1), denS(builder, i2)), denS(builder, in[0]))
+//@ contract (*builder).neg
+//@   props C05 C04
+//@   assigns *builder.cs
+//@   requires wfB(builder)
+//@   ensures @len len(result) == len(in) && fresh(result)
+//@   ensures @neg forall k int :: 0 <= k && k < len(in) ==> denS(builder, result[k]) == fneg(denS(builder, in[k]))
+//@   loop 1 invariant @neg wfB(builder) && 0 <= i && i <= len(in) && len(res) == len(in) && fresh(res) && forall k int :: 0 <= k && k < i ==> denS(builder, res[k]) == fneg(denS(builder, in[k]))
 //@ contract (*builder).Sub
-//@   trusted "not yet verified: goes through Add"
+//@   props C05 C04
 //@   assigns *builder.cs, *builder.mtBooleans
-//@   ensures len(in) == 0 ==> denS(builder, result) == fsub(denS(builder, i1), denS(builder, i2))
-//@   ensures len(in) == 1 ==> denS(builder, result) == fsub(fsub(denS(builder, i1), denS(builder, i2)), denS(builder, in[0]))
+//@   requires wfB(builder)
+//@   ensures @sub2 len(in) == 0 ==> denS(builder, result) == fsub(denS(builder, i1), denS(builder, i2))
+//@   ensures @sub3 len(in) == 1 ==> denS(builder, result) == fsub(fsub(denS(builder, i1), denS(builder, i2)), denS(builder, in[0]))
 //@ contract (*builder).Mul
 //@   trusted "not yet verified: n-ary product splitting with gate re-use"
 //@   assigns *builder.cs, *builder.mtBooleans
@@ -122,6 +130,67 @@ package scs
 //@   assigns *builder.cs, *builder.mtBooleans
 //@   requires wfB(builder)
 //@   ensures @and isBool(denS(builder, a)) && isBool(denS(builder, b)) && denS(builder, result) == fmul(denS(builder, a), denS(builder, b))
+
+//@ contract (*builder).Xor
+//@   props C05
+//@   assigns *builder.cs, *builder.mtBooleans
+//@   requires wfB(builder)
+//   the three gate shapes, each solved for the result over boolean inputs: r = a + b - 2ab; (1-2b)a + b - r = 0 with
+//   either input as the constant one
+//@   lemma @xor-gate isBool(denS(builder, a)) && isBool(denS(builder, b)) && fadd(fadd(fadd(fneg(denS(builder, a)), fneg(denS(builder, b))), denS(builder, result)), fmul(fadd(f1, f1), fmul(denS(builder, a), denS(builder, b)))) == f0 ==> denS(builder, result) == (denS(builder, a) == denS(builder, b) ? f0 : f1)
+//@   lemma @xor-const-b isBool(denS(builder, a)) && isBool(denS(builder, b)) && fadd(fadd(fmul(fsub(fsub(f1, denS(builder, b)), denS(builder, b)), denS(builder, a)), fneg(denS(builder, result))), denS(builder, b)) == f0 ==> denS(builder, result) == (denS(builder, a) == denS(builder, b) ? f0 : f1)
+//@   lemma @xor-const-a isBool(denS(builder, a)) && isBool(denS(builder, b)) && fadd(fadd(fmul(fsub(fsub(f1, denS(builder, a)), denS(builder, a)), denS(builder, b)), fneg(denS(builder, result))), denS(builder, a)) == f0 ==> denS(builder, result) == (denS(builder, a) == denS(builder, b) ? f0 : f1)
+//@   ensures @xor isBool(denS(builder, a)) && isBool(denS(builder, b)) && denS(builder, result) == (denS(builder, a) == denS(builder, b) ? f0 : f1)
+
+//@ contract (*builder).Or
+//@   props C05
+//@   assigns *builder.cs, *builder.mtBooleans
+//@   requires wfB(builder)
+//   the gate -a - b + ab + r = 0 solved for r over boolean inputs
+//@   lemma @or-gate isBool(denS(builder, a)) && isBool(denS(builder, b)) && fadd(fadd(fadd(fneg(denS(builder, a)), fneg(denS(builder, b))), denS(builder, result)), fmul(denS(builder, a), denS(builder, b))) == f0 ==> denS(builder, result) == ((denS(builder, a) == f1 || denS(builder, b) == f1) ? f1 : f0)
+//@   ensures @or isBool(denS(builder, a)) && isBool(denS(builder, b)) && denS(builder, result) == ((denS(builder, a) == f1 || denS(builder, b) == f1) ? f1 : f0)
+
+//@ contract (*builder).Lookup2
+//@   props C05
+//@   assigns *builder.cs, *builder.mtBooleans
+//@   requires wfB(builder)
+//   truth table of (i2-i0)*s1 + (((i3-i2)+(i0-i1))*s1 - (i0-i1))*s0 + i0 over s0, s1 in {0,1}
+//@   lemma @table isBool(denS(builder, b0)) && isBool(denS(builder, b1)) ==> fadd(fadd(fmul(fsub(denS(builder, i2), denS(builder, i0)), denS(builder, b1)), fmul(fsub(fmul(fadd(fsub(denS(builder, i3), denS(builder, i2)), fsub(denS(builder, i0), denS(builder, i1))), denS(builder, b1)), fsub(denS(builder, i0), denS(builder, i1))), denS(builder, b0))), denS(builder, i0)) == (denS(builder, b1) == f1 ? (denS(builder, b0) == f1 ? denS(builder, i3) : denS(builder, i2)) : (denS(builder, b0) == f1 ? denS(builder, i1) : denS(builder, i0)))
+//@   ensures @bits isBool(denS(builder, b0)) && isBool(denS(builder, b1))
+//@   ensures @lookup denS(builder, result) == (denS(builder, b1) == f1 ? (denS(builder, b0) == f1 ? denS(builder, i3) : denS(builder, i2)) : (denS(builder, b0) == f1 ? denS(builder, i1) : denS(builder, i0)))
+
+//@ contract (*builder).DivUnchecked
+//@   props C05
+//@   assigns *builder.cs
+//@   requires wfB(builder)
+//   c * (1/d) * d = c for a non-zero d, in the shapes the three constant cases produce
+//@   lemma @inv-const denS(builder, i2) != f0 ==> fmul(fmul(finv(denS(builder, i2)), denS(builder, i1)), denS(builder, i2)) == denS(builder, i1) && fmul(fmul(denS(builder, i1), finv(denS(builder, i2))), denS(builder, i2)) == denS(builder, i1)
+//   a constant numerator: c * x with x * d = 1
+//@   lemma @inv-wire isTerm(res) && isTerm(result) && fmul(denS(builder, res), denS(builder, i2)) == f1 && as(result, "expr.Term[E]").VID == as(res, "expr.Term[E]").VID && as(result, "expr.Term[E]").Coeff == fmul(as(res, "expr.Term[E]").Coeff, c1) ==> fmul(denS(builder, result), denS(builder, i2)) == c1
+//@   ensures @quotient fmul(denS(builder, result), denS(builder, i2)) == denS(builder, i1)
+
+//@ contract (*builder).Div
+//@   props C05
+//@   assigns *builder.cs
+//@   requires wfB(builder)
+//@   ensures @nonzero denS(builder, i2) != f0
+//@   ensures @quotient fmul(denS(builder, result), denS(builder, i2)) == denS(builder, i1)
+
+//@ spec func wOf(b *builder, v Variable) F = w(b, as(v, "expr.Term[E]").VID)
+//@ spec func cOf(v Variable) F = as(v, "expr.Term[E]").Coeff
+//@ contract (*builder).mulAccFastTrack
+//@   props C05 C04
+//@   assigns *builder.cs
+//@   requires wfB(builder)
+//   the gate ca*wa - wr + (cb*cc)*wa*wb = 0 when a and c are on the same wire, and its mirror image when a and b are
+//@   lemma @fast-ac isTerm(a) && isTerm(b) && isTerm(c) && isTerm(result) && as(a, "expr.Term[E]").VID == as(c, "expr.Term[E]").VID && cOf(result) == f1 && fadd(fadd(fmul(cOf(a), wOf(builder, a)), fneg(wOf(builder, result))), fmul(fmul(cOf(b), cOf(c)), fmul(wOf(builder, a), wOf(builder, b)))) == f0 ==> denS(builder, result) == fadd(denS(builder, a), fmul(denS(builder, b), denS(builder, c)))
+//@   lemma @fast-ab isTerm(a) && isTerm(b) && isTerm(c) && isTerm(result) && as(a, "expr.Term[E]").VID == as(b, "expr.Term[E]").VID && cOf(result) == f1 && fadd(fadd(fmul(cOf(a), wOf(builder, a)), fneg(wOf(builder, result))), fmul(fmul(cOf(c), cOf(b)), fmul(wOf(builder, a), wOf(builder, c)))) == f0 ==> denS(builder, result) == fadd(denS(builder, a), fmul(denS(builder, b), denS(builder, c)))
+//@   ensures @muladd result != nil ==> denS(builder, result) == fadd(denS(builder, a), fmul(denS(builder, b), denS(builder, c)))
+//@ contract (*builder).MulAcc
+//@   props C05 C04
+//@   assigns *builder.cs, *builder.mtBooleans
+//@   requires wfB(builder)
+//@   ensures @muladd denS(builder, result) == fadd(denS(builder, a), fmul(denS(builder, b), denS(builder, c)))
 
 //@ contract (*builder).Select
 //@   props C05
